@@ -7,7 +7,7 @@ P=$1; NAME=$2; W=/tmp/mut-$P; p=$(echo $P | tr A-Z a-z)
 OUT=/verif/seeded/$NAME; mkdir -p $OUT
 cd $W || exit 2
 export CARGO_NET_OFFLINE=true CARGO_TARGET_DIR=$W/target
-git stash -q 2>/dev/null; git checkout -q -- . ; rm -f crates/maybenot/tests/demo_$p.rs
+git checkout -q -- . ; rm -f crates/maybenot/tests/demo_$p.rs
 git apply OUT/patch.diff || { echo "patch does not apply"; exit 2; }
 suite=$(cargo test --workspace --no-fail-fast --offline 2>&1 | grep -E "^test result" | awk '{p+=$4; f+=$6} END {print p" passed "f" failed"}')
 cp OUT/demo_$p.rs crates/maybenot/tests/demo_$p.rs
